@@ -295,39 +295,50 @@ func firstLine(s string) string {
 // (trigger predicates of the js-write-error-* findings, evaluated on the AST).
 func c14Shapes(e *env, sf *ast.SoyFileNode) map[string]bool {
 	has := map[string]bool{}
-	var walk func(n ast.Node, depth int)
-	walkAll := func(ns []ast.Node, depth int) {
+	var walk func(n ast.Node, loops []string)
+	walkAll := func(ns []ast.Node, loops []string) {
 		for _, c := range ns {
 			if c != nil && !isNilNode(c) {
-				walk(c, depth)
+				walk(c, loops)
 			}
 		}
 	}
-	walk = func(n ast.Node, depth int) {
+	walk = func(n ast.Node, loops []string) {
 		switch n := n.(type) {
 		case *ast.ForNode:
-			// the generator pushes the loop frame before it walks the list expression and the ifempty block
+			// the list / range arguments and the ifempty block are outside the loop (since the C04-6 repair;
+			// before it they were inside: the trigger is evaluated for the code as it is, see below)
 			if fn, ok := n.List.(*ast.FunctionNode); ok && fn.Name == "range" {
 				if len(fn.Args) < 1 || len(fn.Args) > 3 {
 					has["range-arity"] = true
 				}
-				walkAll(fn.Args, depth+1)
+				walkAll(fn.Args, loops)
 			} else {
-				walk(n.List, depth+1)
+				walk(n.List, loops)
 			}
-			walk(n.Body, depth+1)
+			walk(n.Body, append(append([]string{}, loops...), n.Var))
 			if n.IfEmpty != nil {
-				walk(n.IfEmpty, depth+1)
+				walk(n.IfEmpty, loops)
 			}
 			return
 		case *ast.FunctionNode:
-			if fn, ok := soyjs.Funcs[n.Name]; ok {
-				_ = fn
+			if _, ok := soyjs.Funcs[n.Name]; ok {
 				if len(n.Args) < c14NeededArgs(e, n.Name, len(n.Args)) {
 					has["function-arity"] = true
 				}
 			} else if n.Name == "isFirst" || n.Name == "isLast" || n.Name == "index" {
-				if depth == 0 {
+				// the argument must be the variable of an enclosing loop
+				ok := false
+				if len(n.Args) == 1 {
+					if ref, isRef := n.Args[0].(*ast.DataRefNode); isRef && len(ref.Access) == 0 {
+						for _, l := range loops {
+							if l == ref.Key {
+								ok = true
+							}
+						}
+					}
+				}
+				if !ok {
 					has["loopfunc"] = true
 				}
 			} else {
@@ -341,10 +352,10 @@ func c14Shapes(e *env, sf *ast.SoyFileNode) map[string]bool {
 			}
 		}
 		if p, ok := n.(ast.ParentNode); ok {
-			walkAll(p.Children(), depth)
+			walkAll(p.Children(), loops)
 		}
 	}
-	walkAll(sf.Body, 0)
+	walkAll(sf.Body, nil)
 	return has
 }
 
@@ -407,7 +418,7 @@ func c14WriteErrorKey(e *env, sf *ast.SoyFileNode, msg string) string {
 	switch {
 	case strings.Contains(msg, "range() takes") && has["range-arity"]:
 		return "js-write-error-range-arity"
-	case strings.Contains(msg, "may only be called inside a loop") && has["loopfunc"]:
+	case (strings.Contains(msg, "may only be called inside a loop") || strings.Contains(msg, "must be applied to the variable of an enclosing loop")) && has["loopfunc"]:
 		return "js-write-error-loopfunc"
 	case strings.Contains(msg, "unimplemented function") && has["unknown-function"]:
 		return "js-write-error-unknown-function"
